@@ -553,6 +553,37 @@ func c09SupplierMap(c *Ctx, rule string) {
 								if (notFound == b || notFound.Dominates(b)) && !reachableNoLoop(found, b, iff.Block()) {
 									// the found edge must be able to reach an error return that mentions the key
 									if errorReturnMentions(found, x.Key) {
+										// the refusal can only be avoided by "it is the very same provider": between the found edge
+										// and the error there is exactly one test, an identity comparison of *ProviderSpec values
+										var tests []string
+										okOnly := true
+										for _, eb := range f2.Blocks {
+											if !found.Dominates(eb) && eb != found {
+												continue
+											}
+											iff2, isIf := eb.Instrs[len(eb.Instrs)-1].(*ssa.If)
+											if !isIf {
+												continue
+											}
+											reachesErr := false
+											for _, sx := range eb.Succs {
+												if ok, _ := allPathsReturnNonNil(sx, map[*ssa.BasicBlock]bool{}); ok {
+													reachesErr = true
+												}
+											}
+											if !reachesErr && !errorBlockBelow(eb) {
+												continue
+											}
+											bo, isB := iff2.Cond.(*ssa.BinOp)
+											if isB && (bo.Op == token.NEQ || bo.Op == token.EQL) && strings.HasSuffix(bo.X.Type().String(), "internal/kessoku.ProviderSpec") {
+												tests = append(tests, "identity comparison of providers")
+											} else {
+												okOnly = false
+												tests = append(tests, describe(iff2.Cond))
+											}
+										}
+										c.check(okOnly && len(tests) <= 1, rule, fnName(f2)+":duplicate-refused-unless-same-provider", L.pos(x.Pos()),
+											"a second supplier of a type is refused unless it is the very same provider (pointer identity), with no further way around the refusal", strings.Join(tests, " ; "))
 										guard = fmt.Sprintf("lookup in block %d; not-found edge -> block %d dominates the insert in block %d; found edge reaches an error naming the key", iff.Block().Index, notFound.Index, b.Index)
 									} else {
 										guard = ""
@@ -757,4 +788,17 @@ func keyShape(t string) string {
 		t = t[i+1:]
 	}
 	return strings.Join(chain, " < ")
+}
+
+// errorBlockBelow: some block dominated by b returns a non-nil error on all its paths (b guards a refusal).
+func errorBlockBelow(b *ssa.BasicBlock) bool {
+	for _, d := range b.Dominees() {
+		if ok, _ := allPathsReturnNonNil(d, map[*ssa.BasicBlock]bool{}); ok {
+			return true
+		}
+		if errorBlockBelow(d) {
+			return true
+		}
+	}
+	return false
 }
